@@ -225,6 +225,20 @@ def single_failures(d, st=None, max_perm_n=4):
                     fails.append((f"C03/{name}/{kind}", det))
             if not exact_equal(ref.arr, g.arr.transpose(perm)):
                 nontrivial = True
+            # the same permutation spelled with negative axes (numpy convention; the abelian parent class and tensordot accept it):
+            # the same result, or a refusal - never another array
+            if n >= 2:
+                for spell, pneg in (("all-negative", tuple(p - n for p in perm)), ("first-negative", (perm[0] - n,) + tuple(perm[1:]))):
+                    try:
+                        c = x.transpose(pneg)
+                    except Exception as e:
+                        if st is not None:
+                            st.refuse(f"transpose[{spell}]", e)
+                        continue
+                    if st is not None:
+                        st.transitions += 1
+                    for kind, det in compare(sym, c, ref, frame, x.charge, f"transpose{pneg}"):
+                        fails.append((f"C03/transpose[negative-axes]/{kind}", det))
         # default (reverse)
         try:
             c = x.transpose()
